@@ -256,15 +256,16 @@ def _corrupt(raw, rejected):
                 m = [m for m in c["rd"] if m["kd"]][0]
                 m["kd"][1] = (m["kd"][1] + 257 * 3) % 65536            # a read-back channel three levels off
                 want["mw-rd-colour"] = (c, "X03.MtlReads")
-            if "mw-text-colour" not in want and any(s["t"] == "Kd" for s in o["stmts"]) and any(real(m) for m in o["srcs"]):
+            if "mw-text-colour" not in want and any(real(m) and m["kd"] for m in o["srcs"]):
                 c = json.loads(ln)
-                s = [s for s in c["stmts"] if s["t"] == "Kd"][0]
-                s["x"][0] += 20                                        # the text says 0.002 more
+                for s in c["stmts"]:
+                    if s["t"] == "Kd":
+                        s["x"][0] += 20                                # every Kd of the text says 0.002 more red
                 want["mw-text-colour"] = (c, "X03.MtlDescribes")
             if "mw-rd-scalar" not in want and any(real(m) and m["ns"][0] != 0 for m in o["srcs"]):
                 c = json.loads(ln)
                 for m in c["rd"]:
-                    m["ns"] += 1
+                    m["ns"] += 2                                       # past the float32 neighbour as well
                 want["mw-rd-scalar"] = (c, "X03.MtlRoundTrip")
         if k == "mr" and o["rerr"] == "" and o["rd"] and "mr-name" not in want:
             c = json.loads(ln)
